@@ -26,7 +26,43 @@ func init() {
 type recTime struct{ T time.Time }
 type recNullTime struct{ T null.Time }
 
+// rec2P: two pointer fields of one time schema, decoded from one buffer (their targets come from one bank)
+type rec2P struct {
+	A *time.Time
+	B *time.Time
+}
+
+func twoPtrCodec(fieldSchema string) (avro.Codec, error) {
+	s, err := avro.SchemaFromString(`{"type":"record","name":"r2","fields":[{"name":"A","type":` + fieldSchema + `},{"name":"B","type":` + fieldSchema + `}]}`)
+	if err != nil {
+		return nil, err
+	}
+	return s.Codec(rec2P{})
+}
+
+// ptrRoute decodes bs twice into the two pointer fields; nil when both equal want, else what was seen
+func ptrRoute(c avro.Codec, bs []byte, want time.Time) *sx {
+	var d rec2P
+	r := avro.NewReadBuf(append(append([]byte(nil), bs...), bs...))
+	if err := c.Read(r, unsafe.Pointer(&d)); err != nil || d.A == nil || d.B == nil {
+		out := T("two-pointer-fields", errSx)
+		return &out
+	}
+	same := func(t time.Time) bool {
+		_, o1 := t.Zone()
+		_, o2 := want.Zone()
+		return t.Unix() == want.Unix() && t.Nanosecond() == want.Nanosecond() && o1 == o2
+	}
+	if !same(*d.A) || !same(*d.B) {
+		out := T("two-pointer-fields", T("first", timeTriple(*d.A)...), T("second", timeTriple(*d.B)...))
+		return &out
+	}
+	return nil
+}
+
 type timeCodecs struct {
+	ptr2    map[string]avro.Codec // date / ns / us / ms / str: struct{A, B *time.Time}
+	reuse   []byte
 	nullStr avro.Codec            // struct{T null.Time} under {"type":"string"}
 	recStr  avro.Codec            // struct{T time.Time} under {"type":"string"}
 	date    avro.Codec            // struct{T time.Time} under {"type":"int","logicalType":"date"}
@@ -45,7 +81,17 @@ func fieldCodec(fieldSchema string, out any) (avro.Codec, error) {
 func buildTimeCodecs() *timeCodecs {
 	avrotime.RegisterCodecs()
 	avronull.RegisterCodecs()
-	tc := &timeCodecs{long: map[string]avro.Codec{}}
+	tc := &timeCodecs{long: map[string]avro.Codec{}, ptr2: map[string]avro.Codec{}}
+	for k, schema := range map[string]string{
+		"date": `{"type":"int","logicalType":"date"}`, "ns": `{"type":"long"}`, "str": `"string"`,
+		"us": `{"type":"long","logicalType":"timestamp-micros"}`, "ms": `{"type":"long","logicalType":"timestamp-millis"}`,
+	} {
+		c, err := twoPtrCodec(schema)
+		if err != nil && tc.err == nil {
+			tc.err = err
+		}
+		tc.ptr2[k] = c
+	}
 	set := func(dst *avro.Codec, schema string, out any) {
 		c, err := fieldCodec(schema, out)
 		if err != nil && tc.err == nil {
@@ -99,7 +145,10 @@ func newExecTime() func(op string, args []sx) sx {
 			return T("build-error", A(clean(tc.err.Error())))
 		}
 		// the three parsers on the bytes of one string
-		libFramed := func(framed []byte) sx {
+		libFramed := func(framed0 []byte) sx {
+			// the same backing array for every case, as a reader that re-fills one block buffer has it
+			tc.reuse = append(tc.reuse[:0], framed0...)
+			framed := tc.reuse
 			return guard(func() sx {
 				var t time.Time
 				r := avro.NewReadBuf(framed)
@@ -188,6 +237,9 @@ func newExecTime() func(op string, args []sx) sx {
 				if err := tc.date.Read(r, unsafe.Pointer(&d)); err != nil {
 					return errSx
 				}
+				if bad := ptrRoute(tc.ptr2["date"], bs, d.T); bad != nil {
+					return *bad
+				}
 				return T("ok", append(timeTriple(d.T), I(int64(r.Len())))...)
 			})
 			return T("r", direct, built)
@@ -215,6 +267,9 @@ func newExecTime() func(op string, args []sx) sx {
 				r := avro.NewReadBuf(bs)
 				if err := c.Read(r, unsafe.Pointer(&d)); err != nil {
 					return errSx
+				}
+				if bad := ptrRoute(tc.ptr2[a[0].atom], bs, d.T); bad != nil {
+					return *bad
 				}
 				return T("ok", append(timeTriple(d.T), I(int64(r.Len())))...)
 			})
